@@ -288,6 +288,14 @@ def gen_failure():
     for frag in ("self.type = six.ensure_str(state['type'])", "self.value = six.ensure_str(state['value'])",
                  "self.traceback = six.ensure_str(state['traceback'])", "self.parents = [six.ensure_str(p) for p in state['parents']]"):
         need(frag in scs, "CopiedFailure.setCopyableState no longer contains: " + frag)
+    # the class object put into f.type is made for this one failure from the transmitted name alone (no table that
+    # outlives the call): split at the last dot into __module__ / __name__
+    scs_def = P.find_def(mod, "CopiedFailure.setCopyableState")
+    tail = [U(x) for x in scs_def.body if not (isinstance(x, ast.Expr) and isinstance(x.value, ast.Constant))]
+    want_tail = ["assert isinstance(self.type, str)", "typepieces = self.type.split('.')", "class ExceptionLikeString:\n    pass",
+                 "self.type = ExceptionLikeString", "self.type.__module__ = '.'.join(typepieces[:-1])", "self.type.__name__ = typepieces[-1]"]
+    need(tail[-6:] == want_tail, "CopiedFailure.setCopyableState no longer builds f.type from the transmitted name alone: %s" % tail[-6:])
+    out.append("Definition type_name_separator : Z := 46.   (* self.type.split('.') ; __module__ = '.'.join(pieces[:-1]) ; __name__ = pieces[-1] *)")
     # wrapping: ErrorUnslicer.receiveClose wraps iff not broker._expose_remote_exception_types
     rc = P.find_def(mod, "ErrorUnslicer.receiveClose")
     ifs = [n for n in rc.body if isinstance(n, ast.If)]
@@ -432,6 +440,25 @@ def gen_send():
     out.append("Definition recv_counts_rejected_opens : bool := %s.   (* handleData advances objectCounter for an OPEN %s *)"
                % ("true", "whether or not it is being discarded") if counts_rejected else
                "Definition recv_counts_rejected_opens : bool := false.   (* handleData advances objectCounter only `if not rejected` *)")
+    # receive side: a Violation inside a top-level PB sequence makes every unslicer up to the root give the sequence up
+    # (reportViolation returns the failure; only the PBRootUnslicer absorbs), so exactly the rest of that one object is
+    # discarded.  An unslicer that absorbs stays on the stack and is handed the tokens of the NEXT object.
+    cm = P.load("call.py")
+    gives_up = True
+    for cls in ("CallUnslicer", "AnswerUnslicer", "ErrorUnslicer"):
+        rv = P.find_def(cm, cls + ".reportViolation")
+        rets = [n for n in ast.walk(rv) if isinstance(n, ast.Return)]
+        need(rets and isinstance(rv.body[-1], ast.Return), cls + ".reportViolation does not end in a return")
+        for r_ in rets:
+            t = U(r_.value) if r_.value is not None else "None"
+            if t == "f":
+                continue
+            if t == "None":
+                gives_up = False
+            else:
+                raise P.Untranslatable("%s.reportViolation returns %s" % (cls, t))
+    out.append("Definition pb_unslicers_propagate : bool := %s.   (* Call/Answer/ErrorUnslicer.reportViolation always `return f` *)"
+               % ("true" if gives_up else "false"))
     return "\n\n".join(out) + "\n"
 
 
